@@ -35,10 +35,12 @@ def page_histories(tier):
         for (t2, ns2) in titles:
             if t2 == t:
                 continue
-            recs = ((t, ns, 11, "old " + t), (t, ns, 13, "new " + t), (t2, ns2, 12, "other"))
-            for perm in itertools.permutations(recs):
-                for m in ("pages-batch", "pages-single", "expanded-revid"):
-                    out.append(("en", perm, m))
+            # revision ids of equal and of different digit counts (numeric vs. lexicographic order must not matter)
+            for (r_old, r_new, r_other) in ((11, 13, 12), (9, 10, 100), (3, 20, 7), (99999, 100000, 5)):
+                recs = ((t, ns, r_old, "old " + t), (t, ns, r_new, "new " + t), (t2, ns2, r_other, "other"))
+                for perm in itertools.permutations(recs):
+                    for m in ("pages-batch", "pages-single", "expanded-revid"):
+                        out.append(("en", perm, m))
         if tier == "quick":
             break
     # 3. texts next to each other (record boundaries): every ordered pair of texts on two titles
